@@ -112,6 +112,7 @@ type Path struct {
 	mreads   map[*MapObj]bool
 	// per-path side tables for native stubs
 	side map[string]interface{}
+	facts map[string]bool
 }
 
 // Stats is shared (merged) coverage information.
@@ -212,6 +213,74 @@ func (p *Path) assert(t *smt.Term) {
 		return
 	}
 	p.S.Assert(t)
+	p.learn(t, true)
+}
+
+// learn records literals implied by an asserted term (syntactic fact cache;
+// saves solver calls for conditions the path condition already fixes).
+func (p *Path) learn(t *smt.Term, val bool) {
+	switch {
+	case t.Op == "not":
+		p.learn(t.Args[0], !val)
+		return
+	case t.Op == "and" && val:
+		for _, a := range t.Args {
+			p.learn(a, true)
+		}
+	case t.Op == "or" && !val:
+		for _, a := range t.Args {
+			p.learn(a, false)
+		}
+	}
+	if t.Op == "bool" {
+		return
+	}
+	p.facts[t.String()] = val
+}
+
+// known: is the truth value of t fixed by recorded facts?
+func (p *Path) known(t *smt.Term) (bool, bool) {
+	if t.Op == "bool" {
+		return t.B, true
+	}
+	if v, ok := p.facts[t.String()]; ok {
+		return v, true
+	}
+	switch t.Op {
+	case "not":
+		if v, ok := p.known(t.Args[0]); ok {
+			return !v, true
+		}
+	case "and":
+		all := true
+		for _, a := range t.Args {
+			v, ok := p.known(a)
+			if ok && !v {
+				return false, true
+			}
+			if !ok {
+				all = false
+			}
+		}
+		if all {
+			return true, true
+		}
+	case "or":
+		all := true
+		for _, a := range t.Args {
+			v, ok := p.known(a)
+			if ok && v {
+				return true, true
+			}
+			if !ok {
+				all = false
+			}
+		}
+		if all {
+			return false, true
+		}
+	}
+	return false, false
 }
 
 func (p *Path) feasible(t *smt.Term) bool {
@@ -233,6 +302,9 @@ func (p *Path) branch(c *smt.Term) bool {
 	}
 	if c.IsFalse() {
 		return false
+	}
+	if v, ok := p.known(c); ok {
+		return v
 	}
 	if p.pos < len(p.prefix) {
 		d := p.prefix[p.pos]
@@ -429,6 +501,10 @@ func (p *Path) checkAssert(c *smt.Term, msg string, site ssa.Instruction) {
 		p.res.Proved++
 		return
 	}
+	if v, ok := p.known(c); ok && v {
+		p.res.Proved++
+		return
+	}
 	bad := smt.Not(c)
 	r := smt.Sat
 	if !c.IsFalse() {
@@ -462,7 +538,7 @@ func (e *Engine) newPath(s *smt.Solver, st *Stats, t Task) *Path {
 	return &Path{E: e, S: s, harness: t.Harness, prefix: t.Prefix, globals: map[*ssa.Global]*Object{},
 		sentinels: map[string]Value{}, inputCnt: map[string]int{}, stats: st, floatToks: map[uint64]*smt.Term{},
 		declFuns: map[string]bool{}, memo: map[string]Value{}, reads: map[*Object]bool{}, mreads: map[*MapObj]bool{},
-		side: map[string]interface{}{}}
+		side: map[string]interface{}{}, facts: map[string]bool{}}
 }
 
 // RunPath executes one path (given by its decision prefix) of a harness.
